@@ -790,7 +790,10 @@ class RefEval:
         elif isinstance(s, Match):
             subj = self.eval(s.subj, env, ctx, lv)
             taken = z3.BoolVal(False)
-            for pat, body in s.arms:
+            # the default arm is the fallback WHEREVER it is written: the compiler lowers arms that follow `_` as live
+            # (its "unreachable case after default" warning notwithstanding), and the return-path analysis agrees
+            arms = [a for a in s.arms if a[0] is not None] + [a for a in s.arms if a[0] is None]
+            for pat, body in arms:
                 if pat is None:
                     c = z3.Not(taken)
                 else:
